@@ -120,8 +120,40 @@ func obstruct(sp *txSpec, out string, m manifest.Manifest, f txFault) string {
 	if len(files) == 0 {
 		return ""
 	}
-	it := files[f.Arg%len(files)]
 	base := sp.outBase(out, m)
+	if f.Arg2%3 == 2 {
+		// a regular file where a directory of the manifest must go - by preference one that
+		// holds no file (nothing but the directory's own creation can notice)
+		var dirs, empty []manifest.FileItem
+		for _, it := range m.Items {
+			if !it.IsDir {
+				continue
+			}
+			dirs = append(dirs, it)
+			holds := false
+			for _, fi := range files {
+				if strings.HasPrefix(fi.RelPath, it.RelPath+"/") {
+					holds = true
+				}
+			}
+			if !holds {
+				empty = append(empty, it)
+			}
+		}
+		kind := "file-at-empty-dir-item-path"
+		if len(empty) == 0 {
+			empty, kind = dirs, "file-at-dir-item-path"
+		}
+		if len(empty) > 0 {
+			d := empty[f.Arg%len(empty)]
+			p := filepath.Join(base, filepath.FromSlash(d.RelPath))
+			os.MkdirAll(filepath.Dir(p), 0o755)
+			if err := os.WriteFile(p, []byte("not a directory"), 0o644); err == nil {
+				return kind
+			}
+		}
+	}
+	it := files[f.Arg%len(files)]
 	p := filepath.Join(base, filepath.FromSlash(it.RelPath))
 	if f.Arg2%2 == 0 || !strings.Contains(it.RelPath, "/") {
 		// a non-empty directory where the file must go
